@@ -586,6 +586,11 @@ var c07NoMap = core.Mon(c07, "runner-without-map", func(w *core.W, c *NoMapCase)
 
 func runC07(w *core.W) {
 	runC07Once(w)
+	for i := 0; i < 8; i++ {
+		if w.Mine(i) {
+			c07TwoMaps(w, &TwoMapsCase{X: int64(7 + i*3), Rounds: 1 + i%3})
+		}
+	}
 	ni := 0
 	for mode := 0; mode < 4; mode++ {
 		for _, n := range []int{3, 17, 127, 128, 129, 256, 1000, 4097} {
@@ -790,3 +795,65 @@ func runC07Once(w *core.W) {
 		}
 	}
 }
+
+// TwoMapsCase: one runner serves two records in turn. The locals an evaluation bound sit in the map it ran against and are
+// there again when that map comes back; switching maps neither removes nor copies anything.
+type TwoMapsCase struct {
+	X      int64 `json:"x"`
+	Rounds int   `json:"rounds"`
+}
+
+var c07TwoMaps = core.Mon(c07, "two-maps-in-turn", func(w *core.W, c *TwoMapsCase) {
+	w.Count("two_maps_cases")
+	w.Nontrivial(fmt.Sprintf("twomaps|%d|%d", c.X, c.Rounds))
+	m1 := map[string]interface{}{"price": int(c.X), "$keep": "k1"}
+	m2 := map[string]interface{}{"price": int(c.X) * 10}
+	r := formula.NewRunner()
+	eval := func(src string) string {
+		sc, err := hostParse([]byte(src), true)
+		if err != nil {
+			return "PARSE " + err.Error()
+		}
+		var v interface{}
+		var rerr error
+		w.Eval(1)
+		p, pv := core.Call(func() { v, rerr = r.Resolve(context.Background(), sc.Expression) })
+		if p || rerr != nil {
+			return fmt.Sprint("ERROR ", rerr, pv)
+		}
+		return plainNums(v)
+	}
+	bad := func(step string, want, got interface{}) {
+		w.Violation("two-maps-in-turn", "C07/locals-do-not-stay-with-their-map", c, want, got, step)
+	}
+	r.SetThis(m1)
+	if got := eval("$a = price + 1"); got != fmt.Sprint(c.X+1) {
+		bad("$a = price + 1 on the first map", c.X+1, got)
+		return
+	}
+	for round := 0; round < c.Rounds; round++ {
+		r.SetThis(m2)
+		if got := eval("[$a, $keep, $b = price + 2]"); got != fmt.Sprintf("[<nil> <nil> %d]", c.X*10+2) {
+			bad("[$a, $keep, $b = price + 2] on the second map", fmt.Sprintf("[<nil> <nil> %d]", c.X*10+2), got)
+			return
+		}
+		if _, has := m1["$a"]; !has || m1["$keep"] != "k1" || len(m1) != 3 {
+			bad("the first map after the runner moved to the second", "price, $keep, $a", fmt.Sprint(m1))
+			return
+		}
+		r.SetThis(m1)
+		if got := eval("[$a, $keep, $b, price]"); got != fmt.Sprintf("[%d k1 <nil> %d]", c.X+1, c.X) {
+			bad("[$a, $keep, $b, price] back on the first map", fmt.Sprintf("[%d k1 <nil> %d]", c.X+1, c.X), got)
+			return
+		}
+		if _, has := m2["$b"]; !has || len(m2) != 2 {
+			bad("the second map after the runner moved back", "price, $b", fmt.Sprint(m2))
+			return
+		}
+		r.SetThis(m1) // the same map again: nothing changes
+		if got := eval("$a"); got != fmt.Sprint(c.X+1) {
+			bad("$a after the same map was set again", c.X+1, got)
+			return
+		}
+	}
+})
